@@ -11,15 +11,15 @@ from fractions import Fraction
 from common import *
 
 DEFAULT_CFG = dict(max=100, counters=16, cap=16, shards=2, queue=8, pool=1, buffer=2, hash=0, wcalc=1,
-                   t0=1000000000000, seeds=[1, 2, 3, 4], clients=3, debug=True)
+                   t0=1000000000000, seeds=[1, 2, 3, 4], clients=3, debug=True, points="window")
 
 
 def cfg_line(cfg):
     c = dict(DEFAULT_CFG)
     c.update(cfg)
-    return ("config max=%d counters=%d cap=%d shards=%d queue=%d pool=%d buffer=%d hash=%d wcalc=%d t0=%d seeds=%s clients=%d"
+    return ("config max=%d counters=%d cap=%d shards=%d queue=%d pool=%d buffer=%d hash=%d wcalc=%d t0=%d seeds=%s clients=%d points=%s"
             % (c["max"], c["counters"], c["cap"], c["shards"], c["queue"], c["pool"], c["buffer"], c["hash"], c["wcalc"],
-               c["t0"], ",".join(str(x) for x in c["seeds"]), c["clients"]))
+               c["t0"], ",".join(str(x) for x in c["seeds"]), c["clients"], c["points"]))
 
 
 def cfg_coq(cfg):
@@ -143,6 +143,35 @@ def event_coq_w(ev, rec, st):
     return "WBase (%s)" % event_coq(ev, rec)
 
 
+SPLIT_OPS = ("put", "put_w", "put_ttl", "put_w_ttl", "upsert", "delete", "get", "get_ref", "map_get", "map_get_ref", "shutdown")
+
+
+def event_coq_m(ev, rec, st):
+    """Coq term of one event of a micro schedule (Micro.mevent). st["at"] maps a stepping caller to the label of the schedule
+    point it is stopped at (as the implementation reported it)."""
+    p = ev.split()
+    stopped = rec["ret"] and rec["ret"][0] == 7
+    label = rec["ret"][1] if stopped and len(rec["ret"]) > 1 else None
+    idx = zlist(rec["oracle"]["pool"])
+    if p[0] == "callp":
+        call = event_coq("call " + " ".join(p[1:]), rec)          # ECall tid (request) idxs
+        if stopped:
+            st["at"][p[1]] = label
+        return "MEnter " + call[len("ECall "):]
+    if p[0] == "run" and p[1] in st["at"]:
+        was = st["at"].pop(p[1])
+        if stopped:
+            st["at"][p[1]] = label
+        if was == "upsert.after_store_update":
+            return "MWin (WUpsert2 %s)" % zlit(p[1])
+        return "MStepC %s %s" % (zlit(p[1]), idx)
+    if p[0] == "workerp":
+        return "MWorker1 " + event_coq("worker", rec)[len("EWorker "):]
+    if p[0] == "runw":
+        return "MWorker2"
+    return "MWin (WBase (%s))" % event_coq(ev, rec)
+
+
 def canon_window_event(ev, pending):
     """The event name under which the observation of a window event is canonicalised (a resumed put_or_update returns what
     the call returns)."""
@@ -158,6 +187,7 @@ def canon_window_event(ev, pending):
 
 
 def run_model(cases, tag="cases", window=False):
+    micro = window == "micro"
     """cases: list of (name, cfg, [coq event terms]). Returns {name: [dump per event]} by vm_compute inside coqc."""
     ensure_dirs()
     if not cases:
@@ -170,11 +200,13 @@ def run_model(cases, tag="cases", window=False):
         idx, chunk = idx_chunk
         vfile = os.path.join(TMP, "%s_%d.v" % (tag, idx))
         with open(vfile, "w") as f:
-            f.write("From CacheD Require Import %s.\nOpen Scope Z_scope.\n" % ("Window" if window else "Model"))
+            f.write("From CacheD Require Import %s.\nOpen Scope Z_scope.\n" % ("Micro" if micro else "Window" if window else "Model"))
             for n, (name, cfg, evs) in enumerate(chunk):
                 f.write("Definition cfg_%d : config := %s.\n" % (n, cfg_coq(cfg)))
-                f.write("Definition evs_%d : list %s := [\n  %s].\n" % (n, "wevent" if window else "event", ";\n  ".join(evs)))
-                if window:
+                f.write("Definition evs_%d : list %s := [\n  %s].\n" % (n, "mevent" if micro else "wevent" if window else "event", ";\n  ".join(evs)))
+                if micro:
+                    f.write("Eval vm_compute in (mtrace cfg_%d (minit cfg_%d) evs_%d).\n" % (n, n, n))
+                elif window:
                     f.write("Eval vm_compute in (wtrace cfg_%d (winit cfg_%d) evs_%d).\n" % (n, n, n))
                 else:
                     f.write("Eval vm_compute in (trace cfg_%d (init cfg_%d) evs_%d).\n" % (n, n, n))
@@ -355,13 +387,13 @@ def correspond(binary, schedules, tag="sched", window=False):
             raise Broken("harness-run", "case %s: %d events in, %d records out" % (s["name"], len(s["events"]), len(recs)), schedule=s)
         evs = []
         pairs = []
-        st = dict(stepping=set())
+        st = dict(stepping=set(), at={})
         pending = {}
         for ev, rec in zip(s["events"], recs):
             if rec["skipped"]:
                 continue
             if window:
-                evs.append(event_coq_w(ev, rec, st))
+                evs.append(event_coq_m(ev, rec, st) if window == "micro" else event_coq_w(ev, rec, st))
                 cev = canon_window_event(ev, pending)
                 if rec["ret"] and rec["ret"][0] == 7:
                     rec = dict(rec, ret=[9])        # stopped at the schedule point
